@@ -198,6 +198,21 @@ inv_direct_cases = st.fixed_dictionaries({
     "ell": S.ellipsoid_spec(), "num": S.num_kind, "whole": st.booleans(), "defaults": st.sampled_from([0, 0, 1, 2]),
     "plane": st.sampled_from([None] * 6 + ["x0+", "x0-", "-x,+0", "-x,-0", "+x,-0"])})
 
+def _sweep_lines(rnd):
+    """Latitude (-90..90), longitude (-180..180) and height (-1e4 .. 4e7 m, log-spaced above 1 m) walked on lattices, the other
+    two coordinates and the ellipsoid fixed per line by the seed; two lines per axis."""
+    out = []
+    for rep in range(2):
+        ell = "grs80" if rep == 0 else S.sweep_ellipsoid(rnd)
+        lat, lon, h = rnd.uniform(-89.0, 89.0), rnd.uniform(-180.0, 180.0), rnd.choice([0.0, rnd.uniform(-1e4, 9e3), rnd.uniform(1e4, 4e7)])
+        base = {"ell": ell, "num": "float", "whole": False, "defaults": 0}
+        out.append((1.0, lambda f, b=base, lo=lon, hh=h: dict(b, lat=-90.0 + 180.0 * f, lon=lo, h=hh)))
+        out.append((1.0, lambda f, b=base, la=lat, hh=h: dict(b, lat=la, lon=-180.0 + 360.0 * f, h=hh)))
+        out.append((0.5, lambda f, b=base, la=lat, lo=lon: dict(b, lat=la, lon=lo, h=(-1e4 + 2e4 * f * 2 if f < 0.5 else
+                                                                                 10.0 ** (4.0 + (f - 0.5) * 2 * 3.602)))))
+    return out
+
+
 SUBCHECKS = [
     SubCheck("forward_closed_form", check_forward, strategy=forward_cases, nontrivial=_nt, classes=_classes,
              quick=4000, thorough=400000, shards_thorough=12,
@@ -208,4 +223,10 @@ SUBCHECKS = [
     SubCheck("inverse_direct_xyz", check_inverse_direct, strategy=inv_direct_cases, nontrivial=lambda c: True,
              classes=_classes, quick=3000, thorough=300000, shards_thorough=10,
              rule="Cartesian points drawn directly (every octant, p from 1 mm, z = 0 plane) -> xyz2llh -> back, 0.02 mm"),
+    SubCheck("forward_axis_sweeps", lambda c: check_forward(dict(c, kind="float", kind2=None, defaults=False)),
+             enumerate=S.sweeps(303, _sweep_lines, 20000, 400000), nontrivial=_nt, classes=_classes, shards_quick=8, shards_thorough=16,
+             rule="stratified sweeps of latitude, longitude and height (20 000 / 400 000 lattice points per line, two lines per axis, seeded)"),
+    SubCheck("inverse_axis_sweeps", check_inverse_from_geodetic, enumerate=S.sweeps(304, _sweep_lines, 20000, 400000), nontrivial=_nt,
+             classes=_classes, shards_quick=8, shards_thorough=16,
+             rule="the same sweeps through xyz2llh (closed-form xyz of the lattice point -> xyz2llh -> back, 0.02 mm)"),
 ]
